@@ -507,6 +507,27 @@ def run(tier, seed):
         obs, pulls, closes = run_impl(items, key, flavour, ops)
         adv_only = builtins.all(o[0] in ("adv", "grp", "drop") for o in ops)
         std = run_std(items, key, ops) if adv_only else None
+        std_cmp = None
+        if std is None and builtins.all(o[0] in ("adv", "grp", "drop", "gclose") for o in ops):
+            # closing a group has no itertools counterpart, but it is the same as abandoning it: itertools runs the history
+            # without the closes and without the later reads of closed groups, everything else must agree
+            closed_g, keep = set(), []
+            for o in ops:
+                if o[0] == "gclose":
+                    closed_g.add(o[1])
+                    keep.append(False)
+                else:
+                    keep.append(not (o[0] == "grp" and o[1] in closed_g))
+            kept_ops = [o for o, k_ in builtins.zip(ops, keep) if k_]
+            obs_iter = builtins.iter(obs)
+            kept_obs = []
+            for o, k_ in builtins.zip(ops, keep):
+                if o[0] == "drop":
+                    continue
+                ob = next(obs_iter, ("missing",))
+                if k_:
+                    kept_obs.append(ob)
+            std_cmp = (kept_obs, run_std(items, key, kept_ops))
         lens[len(ops)] = lens.get(len(ops), 0) + 1
         rep.count((repr(items), key, tuple(ops)), len(items) > 1 and len(ops) > 2,
                   sample={"items": repr(items), "key": key, "ops": ops, "obs": repr(obs)})
@@ -517,6 +538,8 @@ def run(tier, seed):
             bad = "differs from itertools.groupby: impl %r std %r" % (obs, std)
         elif ops and ops[-1][0] == "close" and closes < 1:
             bad = "aclose did not close the source"
+        elif std_cmp is not None and not (len(std_cmp[0]) == len(std_cmp[1]) and builtins.all(same_obs(x, y) for x, y in builtins.zip(*std_cmp))):
+            bad = "differs from itertools.groupby (closed groups = abandoned groups): impl %r std %r" % std_cmp
         if bad:
             fails += 1
             rep.violation("groupby:%s" % ("error" if "failed" in bad else "values"),
